@@ -573,7 +573,10 @@ def run():
             chk.cov['disagreements_checked'] += 1
             chk.violation('%s:model-mismatch:order-%d:%s' % (site, c['order'], c['twist']),
                           'exact output of the code differs from the model: %s / %s' % (impl[:100], m[:100]), replay,
-                          no_input=(c['op'] == 'grad' and impl.startswith('ok')))
+                          # an exception about the stand-ins of the exact run (Fraction, the duck-typed iota) is a broken
+                          # correspondence, not a failing input
+                          no_input=((c['op'] == 'grad' and impl.startswith('ok')) or
+                                    (impl.startswith('exc') and ('<lambda>' in impl or 'Fraction' in impl or 'SimpleNamespace' in impl))))
     # ---- real objects
     ocases = gen_object_cases(chk)
     ores = implrun.run_cases('props.c13', 'object_case', ocases, tmo=600.0, chunk=1)
